@@ -924,62 +924,4 @@ theorem sc_sig_capacity (flags : Nat) (o : Nat) (m0 m0' : PSIPMsg) (len kh1 kc1 
   · exact sc_sig_fit r1.2.2 r2.2.2 b hD hd1' hd2' (by rw [hs1]; exact f1) (by rw [hs2, hn]; exact f2)
   · exact sc_sig_small r1.2.2 r2.2.2 b hD (by rw [hs1]; exact f1) (by rw [hs1, hs2]; exact f2)
 
-/-! ### tests / non-vacuity (closed computations by `decide +kernel`; these are examples, not the general claims) -/
-
-/-- test message: INVITE with Via, Subject, compact From, To, Call-ID, CSeq, a second Via, Content-Length (8 headers) -/
-def scTestMsg : Buf := "INVITE sip:a@b SIP/2.0\r\nVia: SIP/2.0/UDP h;branch=z9hG4bK-a.b\r\nSubject: x\r\nf: <sip:a@b>;tag=a-1\r\nTo: <sip:c@d>\r\nCall-ID: x@1.2.3.4\r\nCSeq: 1 INVITE\r\nVia: SIP/2.0/UDP h2\r\nContent-Length: 0\r\n\r\n".toUTF8.data
-
-/-- the object after Init with a header array of `k` entries -/
-def scTestInit (k : Nat) : PSIPMsg := ({} : PSIPMsg).init 0 (some (Array.replicate k {})) none
-
-/-- test (1): the one-shot parse succeeds, so `sc_getMsgSig_safe_init` applies (its hypotheses are satisfiable) -/
-example : (parseSIPMsg scTestMsg 0 (scTestInit 12) 0).2.1 = .ok := by decide +kernel
-
-example : (getMsgSig (parseSIPMsg scTestMsg 0 (scTestInit 12) 0).2.2 scTestMsg).2.2 = false := by
-  have he : (parseSIPMsg scTestMsg 0 (scTestInit 12) 0).2.1 = .ok := by decide +kernel
-  exact sc_getMsgSig_safe_init scTestMsg 0 (Nat.zero_le _) {} 0 12 0 (some ()) none 0 (by decide +kernel)
-    (show parseSIPMsg scTestMsg 0 (scTestInit 12) 0 = (_, .ok, _) from Prod.ext rfl (Prod.ext he rfl))
-
-/-- test (1): the unfilled slots of a 12-entry array after the parse: `ScDone` computed -/
-example : ∀ k, k < 12 → 8 ≤ k → (parseSIPMsg scTestMsg 0 (scTestInit 12) 0).2.2.hl.hdrs[k]!.type = 0 := by
-  decide +kernel
-
-/-- test (2): the message cut after 40 and after 100 bytes; the hypotheses of `sc_sig_chunking_whole` hold -/
-def scTestCuts : List Buf := [scTestMsg.extract 0 40, scTestMsg.extract 0 100, scTestMsg]
-
-theorem scTestCuts_growing : Growing scTestCuts :=
-  ⟨⟨scTestMsg.extract 40 100, by decide +kernel⟩, ⟨scTestMsg.extract 100 scTestMsg.size, by decide +kernel⟩, trivial⟩
-
-example : ∀ x ∈ scTestCuts.dropLast, (parseSIPMsg x 0 (scTestInit 12) 0).2.1 = .moreBytes := by decide +kernel
-
-example : getMsgSig (resumeRun (C01.msgP 0) 0 (scTestInit 12) scTestCuts).2.2 scTestMsg =
-    ({ method := 2, cidSLen := 1, cidSig := 10, fromSig := 64, viaBSig := 80, hdrSig := [6, 11, 5, 0, 2] },
-     .ok, false) := by decide +kernel
-
-example : getMsgSig (resumeRun (C01.msgP 0) 0 (scTestInit 12) scTestCuts).2.2 scTestMsg =
-    getMsgSig (parseSIPMsg scTestMsg 0 (scTestInit 12) 0).2.2 scTestMsg :=
-  (sc_sig_chunking_whole 0 0 {} 0 12 0 (some ()) none scTestCuts scTestCuts_growing (by decide +kernel)
-    (by decide) (by intro b hb; exact Nat.zero_le _) (by decide +kernel) (by decide +kernel)).2 scTestMsg
-
-/-- test (3a): capacities 8 (exactly the header count), 12 and none (10): the same result -/
-example : (parseSIPMsg scTestMsg 0 (scTestInit 8) 0).2.2.hl.n = 8 ∧
-    getMsgSig (parseSIPMsg scTestMsg 0 (scTestInit 8) 0).2.2 scTestMsg =
-      getMsgSig (parseSIPMsg scTestMsg 0 (scTestInit 12) 0).2.2 scTestMsg ∧
-    getMsgSig (parseSIPMsg scTestMsg 0 (({} : PSIPMsg).init 0 none none) 0).2.2 scTestMsg =
-      getMsgSig (parseSIPMsg scTestMsg 0 (scTestInit 12) 0).2.2 scTestMsg := by decide +kernel
-
-/-- test (3b): capacity 3: truncated indication with the entries of the stored part; capacity 1 (only the first Via
-    stored; the flag word has more types): truncated as well -/
-example : getMsgSig (parseSIPMsg scTestMsg 0 (scTestInit 3) 0).2.2 scTestMsg =
-    ({ method := 2, cidSLen := 1, cidSig := 10, fromSig := 64, viaBSig := 80, hdrSig := [6, 11] }, .trunc, false) ∧
-    (getMsgSig (parseSIPMsg scTestMsg 0 (scTestInit 1) 0).2.2 scTestMsg).2.1 = .trunc := by decide +kernel
-
-/-- test (3): `sc_sig_capacity` instantiated: capacity 3 against capacity 12, one-chunk schedule -/
-example : (getMsgSig (parseSIPMsg scTestMsg 0 (scTestInit 3) 0).2.2 scTestMsg).2.1 = .trunc ∨
-    getMsgSig (parseSIPMsg scTestMsg 0 (scTestInit 3) 0).2.2 scTestMsg =
-      getMsgSig (parseSIPMsg scTestMsg 0 (scTestInit 12) 0).2.2 scTestMsg :=
-  (sc_sig_capacity 0 0 {} {} 0 3 0 12 0 (some ()) none (some ()) none [scTestMsg] trivial (by decide +kernel)
-    (by intro b hb; exact Nat.zero_le _) (by decide) _ _ rfl rfl (by decide +kernel)).2.2.2.2.2.2
-      (by decide +kernel) (by decide) scTestMsg
-
 end Sipsp
